@@ -413,6 +413,13 @@ class Program:
         return n
 
     def find_promoted(self, path):
+        if path.startswith('<'):
+            # <mod::Type as Trait<..>>::method::promoted[N]
+            j = skip_angle(path, 0)
+            inner = path[1:j - 1]
+            k = inner.find(' as ')
+            ty = inner[:k] if k >= 0 else inner
+            path = strip_refs(ty) + path[j:]
         n = strip_generics(path)
         segs = split_path(n)
         # drop the type segment: `distinfo::Line::from_bytes::promoted[0]` vs `distinfo::from_bytes::promoted[0]`
